@@ -4,7 +4,7 @@
    executable IEEE model; decode side: model/Convert.v.  The implementation (which picks copy / colour-convert /
    universal variants per input) is compared with this model byte for byte on all 35 pixel formats. *)
 From Coq Require Import ZArith List Bool Lia.
-From DDSV Require Import model.Float model.Convert model.Encode spec.SpecNum proofs.EncodeProofsA proofs.EncodeProofsB proofs.EncodeProofsC.
+From DDSV Require Import model.Float model.Convert model.Encode spec.SpecNum proofs.EncodeProofsA proofs.EncodeProofsB proofs.EncodeProofsC proofs.FloatMono proofs.QuantProofs proofs.QuantProofs16.
 Import ListNotations.
 Local Open Scope Z_scope.
 
@@ -33,8 +33,19 @@ Theorem C12_quantise_u16 : forall x, 0 <= x < 65536 ->
   nearest (s16_norm (s16_from (b16 x))) (x * 65534) 65535.
 Proof. exact quantise_u16. Qed.
 
+(* f32 input into 8- and 16-bit UNORM fields, for EVERY f32 bit pattern b in [0, 2^40): monotone, and the code stored
+   is k exactly between the boundaries T8 k and T8 (k+1), each within one ULP of the ideal (k - 1/2) / 255 (resp. 65535) *)
+Theorem C12_f32_into_unorm8 : forall b k, 0 <= b < LIM -> 1 <= k <= 255 ->
+  (b < T8 k -> n8_from b <= k - 1) /\ (T8 k <= b -> k <= n8_from b) /\ Z.abs (T8 k - ideal_boundary 255 k) <= 1.
+Proof. exact n8_from_spec. Qed.
+Theorem C12_f32_into_unorm8_between : forall b k, 0 <= b < LIM -> 1 <= k < 255 -> T8 k <= b < T8 (k + 1) -> n8_from b = k.
+Proof. exact n8_from_between. Qed.
+Theorem C12_f32_into_unorm16 : forall b k, 0 <= b < LIM -> 1 <= k <= 65535 ->
+  (b < T16 k -> n16_from b <= k - 1) /\ (T16 k <= b -> k <= n16_from b) /\ Z.abs (T16 k - ideal_boundary 65535 k) <= 1.
+Proof. exact n16_from_spec. Qed.
+
 Example C12_ex : encode_px 6 (to_rgba_f32 3 0 [255; 128; 0; 255]) = [0; 252] /\ encode_px 21 (to_rgba_f32 0 1 [45772]) = le_bytes 4 (715 + Z.shiftl 715 10 + Z.shiftl 715 20 + Z.shiftl 3 30).
 Proof. split; vm_compute; reflexivity. Qed.
 
-Definition C12_all := (C12_roundtrip_u8, C12_roundtrip_u16, C12_quantise_u8, C12_quantise_u16).
+Definition C12_all := (C12_roundtrip_u8, C12_roundtrip_u16, C12_quantise_u8, C12_quantise_u16, C12_f32_into_unorm8, C12_f32_into_unorm8_between, C12_f32_into_unorm16).
 Redirect "props/C12.assumptions" Print Assumptions C12_all.
